@@ -199,6 +199,31 @@ func c06Forward(c *Ctx) {
 				continue
 			}
 			r.tw, r.where = tw, tw
+			// header-first: pkt := newPacket(DATA, 2+count); pkt = AppendUint16(pkt, uint16(count)); pkt = append(pkt, chunk...)
+			if ws, root, okc := appendChainFrom(pk); okc && root != nil {
+				if ti, li, isH := headerHelper(root.Call.StaticCallee()); isH && ti < len(root.Call.Args) && li < len(root.Call.Args) {
+					t, _ := constInt(root.Call.Args[ti])
+					lenOK := false
+					if bo, ok := strip(root.Call.Args[li]).(*ssa.BinOp); ok && bo.Op == token.ADD {
+						if k, isC := constInt(bo.X); isC && k == 2 && countIs(bo.Y) {
+							lenOK = true
+						} else if k, isC := constInt(bo.Y); isC && k == 2 && countIs(bo.X) {
+							lenOK = true
+						}
+					}
+					r.pktOK = t == dataT && lenOK
+					if len(ws) == 2 {
+						if cv, ok := ws[0].val.(*ssa.Convert); ok && ws[0].width == 2 && countIs(cv.X) {
+							if bt, ok := cv.Type().Underlying().(*types.Basic); ok && bt.Kind() == types.Uint16 {
+								r.prefixOK = true
+							}
+						}
+						r.payOK = ws[1].width == -1 && chunkIs(ws[1].val)
+					}
+					r.fresh = true
+					return true
+				}
+			}
 			if calleeName(pk) == protoPkg+".createPacket" {
 				t, _ := constInt(arg(pk, 0))
 				r.pktOK = t == dataT
@@ -334,9 +359,16 @@ func c06Forward(c *Ctx) {
 	}
 	c.Check(resetOK, rule, "forward buffer-reset", tw.Pos(), "the assembly buffer is empty at the top of every iteration", "the assembly buffer is not reset before the next iteration: earlier payloads are sent again")
 	// g. the loop ends only on a read error
+	exitG := GNeq(isVal(rerr), anyNil)
+	if ei := errIndex(tw); ei >= 0 {
+		// ... or when the client can no longer be written to (nothing more can be delivered then)
+		if werr := resultOf(tw, ei); werr != nil {
+			exitG = GOr(exitG, GNeq(isVal(werr), anyNil))
+		}
+	}
 	for i, r := range returnsOf(fn) {
-		ok, why := mustPass(fn, r, GNeq(isVal(rerr), anyNil))
-		c.Check(ok, rule, fmt.Sprintf("forward exit#%d", i), r.Pos(), "the relay ends only when the backend read fails", "the relay loop can end "+why+" of a read error: the rest of the host's stream is never delivered")
+		ok, why := mustPass(fn, r, exitG)
+		c.Check(ok, rule, fmt.Sprintf("forward exit#%d", i), r.Pos(), "the relay ends only when the backend read fails (or the client write fails)", "the relay loop can end "+why+" of a read error: the rest of the host's stream is never delivered")
 	}
 	c.Floor(rule, 7, "buffer, prefix, payload, packet, one-per-read, reset, exit")
 }
@@ -355,6 +387,10 @@ func c06Receive(c *Ctx) {
 			}
 			w = call
 		}
+	}
+	if w != nil && len(reads) == 0 && c06ReceiveDirect(c, rule, fn, w) {
+		c.Floor(rule, 5, "reader, length, size, written, fill")
+		return
 	}
 	if w == nil || len(reads) != 2 {
 		c.Bad(rule, "receive shape", fn.Pos(), "expected two binary.Read calls (length, payload) and one host write; found %d reads", len(reads))
@@ -530,4 +566,84 @@ func c06ForwardPositional(c *Ctx, fn *ssa.Function, read *ssa.Call, base ssa.Val
 			return
 		}
 	}
+}
+
+// c06ReceiveDirect: receive takes the payload out of the packet body in place: cblen =
+// int(binary.LittleEndian.Uint16(data)), payload = data[2:2+cblen], written to the host only when
+// the body carries that many bytes. Same obligations as the reader form.
+func c06ReceiveDirect(c *Ctx, rule string, fn *ssa.Function, w *ssa.Call) bool {
+	dataP := fn.Params[0]
+	var lenCall *ssa.Call
+	for _, ci := range callsTo(fn, "(encoding/binary.littleEndian).Uint16") {
+		call := ci.(*ssa.Call)
+		a := call.Call.Args[len(call.Call.Args)-1]
+		if a == ssa.Value(dataP) {
+			lenCall = call
+		} else if sl, ok := strip(a).(*ssa.Slice); ok && sl.X == ssa.Value(dataP) && sl.Low == nil {
+			lenCall = call
+		} else if sl, ok := strip(a).(*ssa.Slice); ok && sl.X == ssa.Value(dataP) {
+			if k, isC := constInt(sl.Low); isC && k == 0 {
+				lenCall = call
+			}
+		}
+	}
+	if lenCall == nil {
+		return false
+	}
+	c.OK(rule, "receive reader", lenCall.Pos(), "length and payload are taken in order from the packet body itself")
+	c.OK(rule, "receive length-field", lenCall.Pos(), "payload length is the little-endian uint16 at the start of the body")
+	isCblen := func(v ssa.Value) bool {
+		for _, cand := range []ssa.Value{v, strip(v), unspill(v)} {
+			if cand == ssa.Value(lenCall) {
+				return true
+			}
+			if cv, ok := cand.(*ssa.Convert); ok && (cv.X == ssa.Value(lenCall) || strip(cv.X) == ssa.Value(lenCall)) {
+				bt, isB := cv.Type().Underlying().(*types.Basic)
+				return isB && bt.Kind() == types.Int
+			}
+		}
+		return false
+	}
+	var payload *ssa.Slice
+	eachInstr(fn, func(in ssa.Instruction) {
+		sl, ok := in.(*ssa.Slice)
+		if !ok || sl.X != ssa.Value(dataP) || sl.Low == nil || sl.High == nil {
+			return
+		}
+		lo, isC := constInt(sl.Low)
+		bo, isBo := strip(sl.High).(*ssa.BinOp)
+		if !isC || lo != 2 || !isBo || bo.Op != token.ADD {
+			return
+		}
+		bt, isB := bo.Type().Underlying().(*types.Basic)
+		if !isB || bt.Kind() != types.Int {
+			return // the end offset must be computed in int: a 16-bit sum wraps
+		}
+		if k, isK := constInt(bo.X); isK && k == 2 && isCblen(bo.Y) {
+			payload = sl
+		} else if k, isK := constInt(bo.Y); isK && k == 2 && isCblen(bo.X) {
+			payload = sl
+		}
+	})
+	c.Check(payload != nil, rule, "receive payload-size", fn.Pos(), "payload = body[2 : 2+declared length], the end offset computed in int", "the payload is not the body's bytes 2 .. 2+declared length (or the end offset is computed in a 16-bit type and wraps)")
+	if payload == nil {
+		return true
+	}
+	// what the host receives: that slice, or nothing (a body too short for the length field)
+	written := false
+	switch x := strip(w.Call.Args[0]).(type) {
+	case *ssa.Slice:
+		written = x == payload
+	case *ssa.Phi:
+		written = true
+		for _, e := range x.Edges {
+			if se := strip(e); se != ssa.Value(payload) && !isNil(se) {
+				written = false
+			}
+		}
+	}
+	c.Check(written, rule, "receive written", w.Pos(), "the host receives the payload slice, whole", "the bytes written to the host are not the declared-length slice of the packet body")
+	_, guarded := offsetSliceUnderGuard(fn, payload)
+	c.Check(guarded, rule, "receive complete-fill", payload.Pos(), "the payload is taken only when the body carries the declared number of bytes", "the payload is sliced out without a test that the body carries the declared number of bytes")
+	return true
 }
